@@ -193,6 +193,7 @@ func TestClean(t *testing.T) {
 			cycles := c.Int("cycles", 1, 3)
 			data := wr.data
 			var prev []byte
+			var firstRead *bundle.Bundle
 			for cy := 1; cy <= cycles; cy++ {
 				plan := c.DrawReaderPlan("disk.read", len(data), false)
 				rb, err, pi, _, _ := readBundle(c, data, plan)
@@ -209,6 +210,9 @@ func TestClean(t *testing.T) {
 					if cy == 1 || !lb.MultiKey {
 						sameAsModel(c, rb, lb, fmt.Sprintf("cycle%d", cy))
 					}
+				}
+				if cy == 1 {
+					firstRead = rb
 				}
 				if cy == cycles || lb.MultiKey {
 					break
@@ -233,6 +237,10 @@ func TestClean(t *testing.T) {
 				}
 				prev = wr2.data
 				data = wr2.data
+			}
+			// history: the first read's result is still the model after the later writes and reads
+			if c.Oracle("C03") && firstRead != nil && cycles > 1 {
+				sameAsModel(c, firstRead, lb, "first-read-after-later-cycles")
 			}
 			c.Outcome("nt:ok")
 		})
@@ -549,9 +557,15 @@ func TestStorageFaults(t *testing.T) {
 					kind += "+generic"
 				}
 			}
+			// history: the pristine file is read first; what that read returned must
+			// still be exactly the file's content after later reads of other inputs
+			rb0, err0, pi0, _, _ := readBundle(c, data, core.ReaderPlan{ErrAt: -1})
 			plan := c.DrawReaderPlan("disk.read", len(blob), false)
 			rb, err, pi, alloc, _ := readBundle(c, blob, plan)
 			judgeRead(c, blob, rb, err, pi, alloc, "bundle.Read")
+			if pi0 == nil && err0 == nil {
+				judgeRead(c, data, rb0, err0, nil, 0, "bundle.Read/earlier-result-after-later-read")
+			}
 			c.Sig("%s%s", lb.Version, kind)
 		})
 	})
@@ -594,7 +608,7 @@ func TestReencode(t *testing.T) {
 				return
 			}
 			secs := p.RawSections(data)
-			op := c.PickStr("reencode.op", "unknown-section", "unknown-section", "reorder", "duplicate", "drop", "identity")
+			op := c.PickStr("reencode.op", "unknown-section", "unknown-section", "reorder", "duplicate", "drop", "identity", "unknown-wrap")
 			switch op {
 			case "unknown-section":
 				pos := c.Int("reencode.pos", 0, len(secs)-1) // anywhere before "responses"
@@ -605,6 +619,24 @@ func TestReencode(t *testing.T) {
 				secs = append(ns, secs[pos:]...)
 				c.Fault("reencode-unknown-section")
 				c.Event("unknown section %q (%d bytes) inserted at position %d of %d", name, len(junk), pos, len(secs)-1)
+			case "unknown-wrap":
+				// unknown sections whose declared lengths do not match their (empty) data and
+				// whose sum wraps around 2^64: a reader that adds lengths without checking lands
+				// back on the real offsets
+				pos := c.Int("reencode.pos", 0, len(secs)-1)
+				x := c.PickU64("reencode.wrap", 1, 8, 1<<32, 1<<63)
+				l1, l2 := -x, x // l1 = 2^64 - x
+				if c.Bool("reencode.wrapSingle") {
+					l1 = c.PickU64("reencode.huge", ^uint64(0), 1<<63, 1<<63-1, ^uint64(0)-7)
+				}
+				ns := append([]refbundle.RawSection{}, secs[:pos]...)
+				ns = append(ns, refbundle.RawSection{Name: "foo", Decl: &l1})
+				if !c.Bool("reencode.wrapSingle2") {
+					ns = append(ns, refbundle.RawSection{Name: "bar", Decl: &l2})
+				}
+				secs = append(ns, secs[pos:]...)
+				c.Fault("reencode-unknown-section-wrapping-length")
+				c.Event("unknown sections with declared lengths %d and %d inserted at %d", l1, l2, pos)
 			case "reorder":
 				if len(secs) < 3 {
 					op = "identity"
